@@ -398,6 +398,12 @@ def _ijwn_exists(labels, body) -> tm.T:
     return tm.Exists([(j.s, INT)], tm.And(tm.Le(tm.mk_int(0), j), tm.Lt(j, labels.length), body(S(labels.elem(j)))))
 
 
+def _ijwn_forall(labels, body) -> tm.T:
+    c = cur()
+    j = tm.Var(c.fresh_name("j!bound"), INT)
+    return tm.ForAll([(j.s, INT)], tm.Implies(tm.And(tm.Le(tm.mk_int(0), j), tm.Lt(j, labels.length)), body(S(labels.elem(j)))))
+
+
 def _ijwn_post(path, tree_labels, result, trace):
     """Justified exactly when (A) the match is a static tree or lies inside one: some tree label is a prefix of the
     match with a separator appended; or the match is a directory (ends with the separator) and (B1) contains a
@@ -420,12 +426,70 @@ def _ijwn_post(path, tree_labels, result, trace):
                             tm.Iff(tm.mk_bool(len(fetches) == 0), decided_without_store)))
 
 
+@replayer("C18/Workflow._is_justified_without_node/post")
+def replay_is_justified(o):
+    """Run the counter-model (path, tree labels) through the real function on a workflow without static files, and
+    compare with the property's reading: justified iff inside a tree, or a directory that contains one."""
+    from vc.report import const_name, model_terms
+
+    pn, ln, en = const_name(o, "path"), const_name(o, "tree_labels.len"), const_name(o, "tree_labels.elem")
+    if not (pn and ln and en):
+        return dict(reproduced=False, reason="model constants not found")
+    m = None
+    for bound in (1, 2, 4, 8):  # a small counter-model first
+        m = model_terms(o, [(STR, pn), (INT, ln)], extra=[f"(<= {ln} {bound})", f"(<= (str.len {pn}) 12)"])
+        if m:
+            break
+    if not m or not isinstance(m.get(ln), int) or m[ln] > 8:
+        return dict(reproduced=False, reason=f"no usable model: {m}")
+    n = m[ln]
+    pin = [f"(= {pn} {tm.smt_str(m[pn])})", f"(= {ln} {n})"]
+    sel = [(STR, f"(select {en} {k})") for k in range(n)]
+    m2 = model_terms(o, sel, extra=pin) if n else {}
+    if m2 is None:
+        return dict(reproduced=False, reason="no model for the labels")
+    path, labels = m[pn], [m2[t] for _, t in sel]
+    if not all(isinstance(x, str) for x in [path] + labels):
+        return dict(reproduced=False, reason="non-string model values")
+    code = (
+        "import asyncio, os, sys\n"
+        "from stepup.core.sqlite3 import DBSession\n"
+        "from stepup.core.workflow import Workflow\n"
+        f"path, labels = {path!r}, {labels!r}\n"
+        "async def main():\n"
+        "    with DBSession.open(':memory:') as db:\n"
+        "        wf = Workflow(db, dir_queue=asyncio.Queue())\n"
+        "        await wf.initialize()\n"
+        "        async with db:\n"
+        "            return wf._is_justified_without_node(path, labels)\n"
+        "got = asyncio.run(main())\n"
+        "probe = path if path.endswith('/') else path + '/'\n"
+        "inside = any(probe.startswith(l) for l in labels)\n"
+        "contains = path.endswith('/') and ((path in ('./', '/') and bool(labels)) or any(l.startswith(path) for l in labels))\n"
+        "# (the store holds no static file: the scan finds nothing)\n"
+        "want = inside or contains\n"
+        "print('path', repr(path), 'tree labels', labels, 'justified', got, 'expected', want)\n"
+        "sys.exit(1 if got != want else 0)\n")
+    import subprocess
+
+    r = subprocess.run(["/venv/bin/python", "-c", code], cwd=extract.REPO, capture_output=True, text=True,
+                       env={"PYTHONPATH": extract.REPO, "PATH": "/usr/bin:/bin"})
+    return dict(reproduced=r.returncode == 1, python=code, output=(r.stdout + r.stderr)[-1500:],
+                witness=dict(path=path, tree_labels=labels, claim="a glob match without node is (not) justified by static "
+                                                                  "trees against the property's reading"))
+
+
 @contract("stepup/core/workflow.py::Workflow._is_justified_without_node", props=["C18"])
 class is_justified_without_node:
     """The SQL arm scans exactly the labels under `path` unless `path` is a root, where no range is used; the Python
     arms compare whole components (see _ijwn_post)."""
 
     ensures = _ijwn_post
+    # the callers' invariants (docstring): a match is a non-empty root-relative path, every tree label ends with the
+    # separator; assumed on entry so that counter-models are well-formed inputs
+    entry = lambda path, tree_labels: wrap_bool(tm.And(
+        tm.Gt(tm.Len(S(path)), tm.mk_int(0)),
+        _ijwn_forall(tree_labels, lambda l: tm.And(tm.SuffixOf(SLASH, l), tm.Gt(tm.Len(l), tm.mk_int(1))))))
 
     args = dict(self=workflow_spec(queries=[("SELECT 1 FROM node JOIN file", ty.TupleOf(ty.Int))]),
                 path=ty.Str, tree_labels=ty.SeqOf(ty.Str))
